@@ -336,6 +336,13 @@ func (lf *linFn) form(v ssa.Value, d int) *lin {
 	case *ssa.ChangeType:
 		return lf.form(x.X, d+1)
 	case *ssa.BinOp:
+		// arithmetic carried out in a type of at most 32 bits can wrap: it is linear only when its operands are too small
+		// to overflow the type (constants, or values converted from a type of at most half the width)
+		if x.Op == token.ADD || x.Op == token.MUL || x.Op == token.SHL {
+			if bits, _, ok := intKind(x.Type()); ok && bits <= 32 && !(smallOperand(x.X, bits) && smallOperand(x.Y, bits)) {
+				return linAtom(atom{v, false})
+			}
+		}
 		switch x.Op {
 		case token.ADD:
 			return lf.form(x.X, d+1).add(lf.form(x.Y, d+1))
@@ -1336,3 +1343,16 @@ func oblDescr(o linObl) string {
 
 // genAccessKeys, when set (vsa rgenkeys), receives the underivable accesses of the not-claimed functions.
 var genAccessKeys func(fn, descr string)
+
+// smallOperand: the operand of an addition/product in a `bits`-wide type cannot make it wrap together with another such
+// operand: a constant below 2^(bits/2), or a value converted (without change of value) from a type of at most bits/2 bits.
+func smallOperand(v ssa.Value, bits int) bool {
+	if k, ok := intConst(v); ok {
+		return k >= 0 && k < int64(1)<<uint(bits/2)
+	}
+	w := stripValueConv(v)
+	if b, _, ok := intKind(w.Type()); ok && b <= bits/2 {
+		return true
+	}
+	return false
+}
